@@ -211,6 +211,16 @@ func body(s *simrt.Sim, tier string) {
 		c.NW.MaxLatency = time.Duration(20+tp.Draw(180)) * time.Millisecond
 		s.Probe("slow_links")
 	}
+	// Workload variant (out of band): the completion notice of finished
+	// downloads is slow (the task that sends it is stalled for 1-10 s), so that
+	// removals, idle ticks, further requests and Stop land in the window between
+	// a torrent being complete and its completion event being applied.
+	if (s.Tape.Variant/112)%2 == 1 {
+		for i := 0; i < 3; i++ {
+			s.ArmPauseAt("liftedEventLoop).DispatcherComplete", nil, 0, time.Duration(1+tp.Draw(10))*time.Second)
+		}
+		s.Probe("slow_completion_notice_armed")
+	}
 	// Workload variant (out of band): a piece writer of one agent is stalled
 	// inside agentstorage.(*Torrent).WritePiece — a slow disk — for 1-20 s, at a
 	// drawn scheduling point of that function (site-armed pause).
